@@ -205,7 +205,7 @@ theorem parseClause_render (r : RangeSpec) (hwf : r.WF = true) (tail : Bytes) (h
         simpa [RangeSpec.render, RangeSpec.toId] using this
       | some h =>
         obtain ⟨hne, hall, hval⟩ := decimal_spec h
-        have hv : decVal (decimal h) < 4294967296 := by rw [hval]; simpa using hwf.2
+        have hv : decVal (decimal h) < 4294967296 := by rw [hval]; have := hwf.2; simp at this; omega
         have e1 := atoull_digits _ [] hall (Or.inl rfl) hv
         simp only [List.append_nil] at e1
         have := parseClause_span [] (decimal h) tail rfl hall ht
@@ -223,7 +223,7 @@ theorem parseClause_render (r : RangeSpec) (hwf : r.WF = true) (tail : Bytes) (h
         simpa [RangeSpec.render, RangeSpec.toId] using this
       | some h =>
         obtain ⟨hne, hall, hval⟩ := decimal_spec h
-        have hv : decVal (decimal h) < 4294967296 := by rw [hval]; simpa using hwf.2
+        have hv : decVal (decimal h) < 4294967296 := by rw [hval]; have := hwf.2; simp at this; omega
         have hvl : decVal (decimal l) < 4294967296 := by rw [hvall]; simp at hwf; omega
         have e1 := atoull_digits _ [] hall (Or.inl rfl) hv
         have e2 := atoull_digits _ [] halll (Or.inl rfl) hvl
